@@ -16,10 +16,10 @@ import OpusModel.SilkCore
   (:193, `silk_ADD32` is a plain `+`) — is computed exactly and then reduced with `wrap32` (what the compiled code
   stores); the number of such operations whose exact value left the `opus_int32` range is counted in `ub` (each of them is
   signed overflow, i.e. undefined behaviour, in C).  The excitation arithmetic of :81-91 cannot overflow for
-  `opus_int16` pulses (proved), it is written with the plain operations.
+  `opus_int16` pulses (`OpusProps.C03SilkCore.excitation_no_wrap`), it is written with the plain operations.
 -/
 namespace Opus.SilkCore
-open Opus Opus.SilkParams Opus.Gen
+open Opus Opus.SilkParams Opus.Gen Opus.Frozen
 
 /-! ### silk_LPC_analysis_filter -/
 
